@@ -293,6 +293,9 @@ class AnnotateMutMod(Processor):
         annotate_modifications(molecule, self.modifications, self.mutations, self.resspec_counts)
         return molecule
     def run_system(self, system):
+        # What was found in a system this processor ran on before says
+        # nothing about this one.
+        self.resspec_counts = []
         super().run_system(system)
         # A specification must be found in at least one molecule of the system.
         found = {}
